@@ -377,6 +377,39 @@ def default_ns_attribute_values(ctx):
                                   {"text": text, "other": ref[1], "handler": h})
 
 
+def whitespace_around_wildcard_holders(ctx):
+    """White space between the children of element-only content is no content: a document parses to the same object
+    indented and compact - also around elements whose class holds a wildcard (list or single) and no text field."""
+    import dataclasses
+    from typing import List, Optional
+
+    inner_list = dataclasses.make_dataclass("WsPayloadList", [("any", List[object], dataclasses.field(default_factory=list, metadata={"type": "Wildcard", "namespace": "##any"}))])
+    inner_one = dataclasses.make_dataclass("WsPayloadOne", [("any", Optional[object], dataclasses.field(default=None, metadata={"type": "Wildcard", "namespace": "##any"}))])
+    xctx = XmlContext()
+    for inner, body in ((inner_list, "<a>1</a><b/>"), (inner_list, ""), (inner_one, "<c>x</c>"), (inner_one, "")):
+        holder = dataclasses.make_dataclass("WsHolder" + inner.__name__, [
+            ("payload", Optional[inner], dataclasses.field(default=None, metadata={"type": "Element"})),
+            ("items", List[inner], dataclasses.field(default_factory=list, metadata={"type": "Element", "name": "item"})),
+            ("n", Optional[int], dataclasses.field(default=None, metadata={"type": "Element"}))])
+        name = holder.__name__
+        compact = f"<{name}><payload>{body}</payload><item>{body}</item><item>{body}</item><n>5</n></{name}>"
+        spellings = [compact, compact.replace("><", ">\n  <"), compact.replace("</payload>", "</payload>\n").replace("</item>", "</item>\t "),
+                     compact.replace("<payload>", "<payload>\n").replace("</payload>", "\n</payload>") if body else compact]
+        ref = None
+        for text in spellings:
+            for h in ("native", "lxml"):
+                ctx.case(("ws-wildcard-holder", name, body, text, h))
+                try:
+                    cur = ("ok", XmlParser(context=xctx, handler=hb.HANDLERS[h]).from_string(text, holder))
+                except Exception as ex:  # noqa: BLE001
+                    cur = ("exc", type(ex).__name__)
+                if ref is None:
+                    ref = (cur, text)
+                elif cur != ref[0]:
+                    ctx.violation(f"white space between elements changes the parsed object ({h}): {text!r} gives {cur[1]!r}; {ref[1]!r} gives {ref[0][1]!r}"[:900],
+                                  {"text": text, "other": ref[1], "handler": h})
+
+
 def has_qualified_qname(doc) -> bool:
     """Selector part of F14: the document carries a namespace-qualified QName value or xsi:type."""
     for _n, atoms in doc["attrs"]:
@@ -416,6 +449,7 @@ def run(ctx):
     xinclude_text(ctx)
     attribute_order(ctx)
     default_ns_attribute_values(ctx)
+    whitespace_around_wildcard_holders(ctx)
 
 
 def replay(ctx, doc):
